@@ -77,11 +77,11 @@ func New(seed []byte) (*Server, error) {
 	return &Server{seed: append([]byte{}, seed...), pub: priv.Public().(ed25519.PublicKey), ln: ln, Timeout: 10 * time.Second}, nil
 }
 
-func (s *Server) Addr() string        { return s.ln.Addr().String() }
-func (s *Server) PublicKey() []byte   { return append([]byte{}, s.pub...) }
-func (s *Server) Seed() []byte        { return append([]byte{}, s.seed...) }
-func (s *Server) KeyID() []byte       { return KeyID(s.pub) }
-func (s *Server) Close() error        { return s.ln.Close() }
+func (s *Server) Addr() string           { return s.ln.Addr().String() }
+func (s *Server) PublicKey() []byte      { return append([]byte{}, s.pub...) }
+func (s *Server) Seed() []byte           { return append([]byte{}, s.seed...) }
+func (s *Server) KeyID() []byte          { return KeyID(s.pub) }
+func (s *Server) Close() error           { return s.ln.Close() }
 func (s *Server) Listener() net.Listener { return s.ln }
 
 // KeyID is sha256 of the TL-boxed key: pub.ed25519#4813b4c6 key:int256.
@@ -469,14 +469,14 @@ func (c *Conn) CloseWrite() error {
 func (c *Conn) Close() error { return c.nc.Close() }
 
 // ------------------------------------------------------------------ records
-func (c *Conn) RawIn() []byte      { return c.rawIn }  // client->server bytes as read from the socket
-func (c *Conn) SeenIn() []byte     { return c.seenIn } // the same after input faults
-func (c *Conn) RawOut() []byte     { return c.rawOut } // server->client bytes as written (after output faults)
-func (c *Conn) Params() []byte     { return c.params } // 160 session bytes (nil before the handshake)
-func (c *Conn) ClientPub() []byte  { return c.clientPub }
-func (c *Conn) Buffered() int      { return len(c.inbuf) }
-func (c *Conn) InputDead() error   { return c.dead }
-func (c *Conn) Established() bool  { return c.params != nil }
-func (c *Conn) NetConn() net.Conn  { return c.nc }
-func (c *Conn) RxOffset() int      { return c.rxOff }
-func (c *Conn) TxOffset() int      { return c.txOff }
+func (c *Conn) RawIn() []byte     { return c.rawIn }  // client->server bytes as read from the socket
+func (c *Conn) SeenIn() []byte    { return c.seenIn } // the same after input faults
+func (c *Conn) RawOut() []byte    { return c.rawOut } // server->client bytes as written (after output faults)
+func (c *Conn) Params() []byte    { return c.params } // 160 session bytes (nil before the handshake)
+func (c *Conn) ClientPub() []byte { return c.clientPub }
+func (c *Conn) Buffered() int     { return len(c.inbuf) }
+func (c *Conn) InputDead() error  { return c.dead }
+func (c *Conn) Established() bool { return c.params != nil }
+func (c *Conn) NetConn() net.Conn { return c.nc }
+func (c *Conn) RxOffset() int     { return c.rxOff }
+func (c *Conn) TxOffset() int     { return c.txOff }
